@@ -104,6 +104,8 @@ class _SimFile:
         finally:
             self._real.close()
             fs.open_files.discard(self)
+            if self._writing:
+                fs.stamp(self._rel)
 
     # -- reads
     def read(self, *a):
@@ -161,6 +163,24 @@ class SimFS:
         self.open_files = weakref.WeakSet()   # file objects the process has not closed (yet)
         self.killed = False
         self.kill_keep = 0.0
+        self.clock = None           # the op's SimClock (file timestamps come from the simulated clock)
+        self.disk_time = 1.7e9      # simulated time of the last timestamp handed out
+
+    def stamp(self, rel, advance=True):
+        """Give the file the simulated modification time (the real tmpfs mtime is the
+        only place os.stat can read it from, so it is set there)."""
+        if self.clock is not None:
+            t = self.clock.now
+        else:
+            if advance:
+                self.disk_time += 0.25
+            t = self.disk_time
+        self.disk_time = t
+        try:
+            ns = int(t * 1e9)
+            os.utime(os.path.join(self.root, rel), ns=(ns, ns))
+        except OSError:
+            pass
 
     def _rel(self, path):
         try:
@@ -243,11 +263,14 @@ class SimFS:
                     out[os.path.relpath(p, self.root)] = f.read()
         return out
 
-    def write_text(self, rel, text):
+    def write_text(self, rel, text, advance=True):
+        """The client (editor, other tool) writes a file; advance=False: within the
+        timestamp granularity of the previous write (coarse mtime / stopped clock)."""
         p = os.path.join(self.root, rel)
         os.makedirs(os.path.dirname(p), exist_ok=True)
         with _REAL_OPEN(p, "w", encoding="utf-8", newline="") as f:
             f.write(text)
+        self.stamp(rel, advance)
 
     def read_bytes(self, rel):
         with _REAL_OPEN(os.path.join(self.root, rel), "rb") as f:
@@ -266,10 +289,10 @@ class SimClock:
 
     MODES = ("steady", "tiny", "frozen", "backward", "jump")
 
-    def __init__(self, mode="steady", seed=0, repo_files=()):
+    def __init__(self, mode="steady", seed=0, repo_files=(), start=None):
         self.mode = mode
         self.rng = _random.Random(seed)
-        self.now = 1.7e9 + self.rng.random() * 1e6
+        self.now = (1.7e9 + self.rng.random() * 1e6) if start is None else start
         self.start = self.now
         self.reads = []        # values handed to repository code, in order
         self.n_reads = 0
@@ -418,7 +441,9 @@ class World:
         out = {"status": None}
         fs.begin_op(cfg.get("fs_faults"))
         clock_cfg = cfg.get("clock") or {"mode": "steady", "seed": 0}
-        clk = SimClock(clock_cfg.get("mode", "steady"), clock_cfg.get("seed", 0), self.repo_files)
+        clk = SimClock(clock_cfg.get("mode", "steady"), clock_cfg.get("seed", 0), self.repo_files,
+                       start=fs.disk_time + (0.0 if clock_cfg.get("mode") == "frozen" else 0.5))
+        fs.clock = clk
         if cfg.get("pollute") is not None:
             _random.seed(cfg["pollute"])
             self.fired("prng-pollution")
@@ -501,6 +526,7 @@ class World:
             out["sweeps"] = sc.total_sweeps
             out["max_sweeps"] = sc.max_sweeps
             sc.on_interrupt = None
+            fs.disk_time = clk.now
             if len(fs.open_files) or out["status"] != "ok":
                 gc.collect()
             fs.end_op(process_ends=bool(cfg.get("process_ends")))
@@ -509,6 +535,7 @@ class World:
             sys.stdout, sys.stderr, sys.argv = old[0], old[1], old[2]
             for k, v in _REAL_TIME.items():
                 setattr(_time, k, v)
+            fs.clock = None
         out["stdout"] = so.n
         out["stderr"] = se.n
         out["stderr_text"] = se.text()[:2000]
